@@ -329,7 +329,7 @@ def _port_exists(h, node, off, direction):
     return 0 <= off < len(ports[direction])
 
 
-def apply_history(h, hist, valid_ports_only=False):
+def apply_history(h, hist, valid_ports_only=False, probe=None):
     """Apply a history to an existing real Hugr (no model): handle k = k-th node of h in iteration
     order at the start, then nodes in creation order.  Steps that name missing/dead handles or would
     delete a non-leaf are skipped (with valid_ports_only also links to ports the ops do not have).
@@ -390,10 +390,53 @@ def apply_history(h, hist, valid_ports_only=False):
             except ParentBeforeChild:
                 return applied
             handles.extend(mapping[n] for n in sub.h)
+        elif k == "probe":
+            # an explicit query point inside the history (serialization: a pure query)
+            try:
+                h.to_json()
+            except Exception:  # noqa: BLE001
+                pass
+            continue
         else:
             continue
         applied += 1
+        if probe is not None and applied % 2 == 0:
+            # the HUGR is queried (serialized, rendered, exported ...) in the middle of its history: a pure query,
+            # whatever it computes must not be there to go stale when the history goes on
+            try:
+                probe()
+            except Exception:  # noqa: BLE001  (what the query itself does is judged elsewhere)
+                pass
     return applied
+
+
+def gen_probe_history(r):
+    """serialize while an index is free, re-use it, delete elsewhere, serialize again (and so on): the free indices
+    move between two queries while their number stays the same"""
+    n = r.randint(3, 6)
+    hist = [["add_node", 0, r.choice([None, 1, 2]), None] for _ in range(n)]
+    live = list(range(1, n + 1))
+    nxt = n + 1
+    for k in range(1, n):
+        if r.random() < 0.7:
+            hist.append(["add_link", r.choice(live), 0, r.choice(live), 0])
+    for _ in range(r.randint(1, 3)):
+        a = r.choice(live)
+        live.remove(a)
+        hist.append(["delete_node", a])
+        hist.append(["probe"])
+        hist.append(["add_node", 0, 1, None])
+        live.append(nxt)
+        nxt += 1
+        if len(live) > 1:
+            b = r.choice(live[:-1])
+            live.remove(b)
+            hist.append(["delete_node", b])
+        if r.random() < 0.5:
+            hist.append(["add_link", r.choice(live), 0, r.choice(live), 1])
+        if r.random() < 0.4:
+            hist.append(["probe"])
+    return hist
 
 
 def gen_history_on(r, n_existing, max_steps=20, metadata=True):
